@@ -149,6 +149,32 @@ def endOf (kw : List (String × PyExpr)) : R String :=
   | some (.cstr s) => .ok s
   | some _ => .error (.stuck "end= that is not a constant")
 
+/-- helper functions with a dedicated meaning in `evalSpecial` -/
+inductive Special
+  | int_ | pop | wrapify | len | list_ | deep_copy | iterable | boolify | get_input | vy_print | function_call | safe_apply | vy_map | vy_filter | sort_by | vy_reduce | scanl | vectorise
+  deriving DecidableEq, Repr
+
+def specialOf (h : String) : Option Special :=
+  if h = "int" then some .int_
+  else if h = "pop" then some .pop
+  else if h = "wrapify" then some .wrapify
+  else if h = "len" then some .len
+  else if h = "list" then some .list_
+  else if h = "deep_copy" then some .deep_copy
+  else if h = "iterable" then some .iterable
+  else if h = "boolify" then some .boolify
+  else if h = "get_input" then some .get_input
+  else if h = "vy_print" then some .vy_print
+  else if h = "function_call" then some .function_call
+  else if h = "safe_apply" then some .safe_apply
+  else if h = "vy_map" then some .vy_map
+  else if h = "vy_filter" then some .vy_filter
+  else if h = "sort_by" then some .sort_by
+  else if h = "vy_reduce" then some .vy_reduce
+  else if h = "scanl" then some .scanl
+  else if h = "vectorise" then some .vectorise
+  else Option.none
+
 /-- assignment targets the templates use -/
 def assignTo (t : PyExpr) (v : Val) (σ : PSt) : R PSt :=
   match t with
@@ -253,8 +279,18 @@ def evalE (cfg : Cfg) : Nat → PyExpr → PSt → R (Val × PSt)
   | n, .call (.attr (.name "sympy") "nsimplify") [.cstrN ds] _, σ =>
       if ds ≠ [] ∧ ds.all isDigit then .ok (.int (natOfDigits ds), σ) else .error (.unmodelled "non-integer literal")
   | n, .call (.attr (.name "sympy") "nsimplify") [e] _, σ => evalE cfg n e σ
-  | n, .call (.name "int") [e] _, σ => evalE cfg n e σ
-  | n, .call (.name "pop") ((.name x) :: k :: _) _, σ => do
+  | n, .call (.name h) args kw, σ =>
+      (match specialOf h with
+       | some sp => evalSpecial cfg n sp args kw σ
+       | Option.none => callVar cfg n (h, []) (some h) args kw σ)
+  | n, .call (.pname pre s) args kw, σ => callVar cfg n (pre, s) Option.none args kw σ
+  | _, _, _ => .error (.stuck "expression")
+termination_by n e _ => (n, 10, sizeOf e)
+
+/-- the helper functions of `vyxal/helpers.py` / `elements.py` that the templates call, with their real meaning -/
+def evalSpecial (cfg : Cfg) : Nat → Special → List PyExpr → List (String × PyExpr) → PSt → R (Val × PSt)
+  | n, .int_, [e], _, σ => evalE cfg n e σ
+  | n, .pop, ((.name x) :: k :: _), _, σ => do
       let (kv, σ1) ← evalE cfg n k σ
       let kk ← asNat kv
       match σ1.getVar (x, []) with
@@ -265,7 +301,7 @@ def evalE (cfg : Cfg) : Nat → PyExpr → PSt → R (Val × PSt)
            | 1, [v] => .ok (v, σ2)
            | _, _ => .ok (.list p, σ2))
       | _ => .error (.stuck "pop from something that is not a list variable")
-  | n, .call (.name "wrapify") ((.name x) :: k :: _) _, σ => do
+  | n, .wrapify, ((.name x) :: k :: _), _, σ => do
       let (kv, σ1) ← evalE cfg n k σ
       let kk ← asNat kv
       match σ1.getVar (x, []) with
@@ -273,30 +309,30 @@ def evalE (cfg : Cfg) : Nat → PyExpr → PSt → R (Val × PSt)
           let (p, xs', ins) := popPy kk xs σ1.inputs σ1.retain
           .ok (.list p, ({ σ1 with inputs := ins }).setVar (x, []) (.list xs'))
       | _ => .error (.stuck "wrapify of something that is not a list variable")
-  | n, .call (.name "len") [e] _, σ => do
+  | n, .len, [e], _, σ => do
       let (v, σ1) ← evalE cfg n e σ
       let xs ← asList v
       .ok (.int xs.length, σ1)
-  | n, .call (.name "list") [e] _, σ => evalE cfg n e σ
-  | n, .call (.name "deep_copy") [e] _, σ => evalE cfg n e σ
-  | n, .call (.name "iterable") (e :: rest) _, σ => do
+  | n, .list_, [e], _, σ => evalE cfg n e σ
+  | n, .deep_copy, [e], _, σ => evalE cfg n e σ
+  | n, .iterable, (e :: rest), _, σ => do
       let (v, σ1) ← evalE cfg n e σ
       let xs ← (match rest with
         | .name "range" :: _ => iterRange cfg v
         | _ => iterDigits v)
       .ok (.list xs, σ1)
-  | n, .call (.name "boolify") (e :: _) _, σ => do
+  | n, .boolify, (e :: _), _, σ => do
       let (v, σ1) ← evalE cfg n e σ
       .ok (.int (b2i (truthy v)), σ1)
-  | _, .call (.name "get_input") _ _, σ =>
+  | _, .get_input, _, _, σ =>
       let (x, ins) := if σ.useTop then explicitInput σ.inputs else implicitInput σ.inputs
       .ok (x, { σ with inputs := ins })
-  | n, .call (.name "vy_print") (e :: _) kw, σ => do
+  | n, .vy_print, (e :: _), kw, σ => do
       let (v, σ1) ← evalE cfg n e σ
       let end_ ← endOf kw
       let σ2 ← printPy σ1 v end_
       .ok (.none, σ2)
-  | n, .call (.name "function_call") ((.name x) :: _) _, σ =>
+  | n, .function_call, ((.name x) :: _), _, σ =>
       (match σ.getVar (x, []) with
        | some (.list xs) =>
            let (p, xs', ins) := popPy 1 xs σ.inputs σ.retain
@@ -308,11 +344,11 @@ def evalE (cfg : Cfg) : Nat → PyExpr → PSt → R (Val × PSt)
                 .ok (.none, σ2.setVar (x, []) (.list ((match rest with | some (.list l) => l | _ => xs') ++ rl)))
             | _ => .error (.unmodelled "† on a non-function"))
        | _ => .error (.stuck "function_call on something that is not a list variable"))
-  | n, .call (.name "safe_apply") (f :: args) _, σ => do
+  | n, .safe_apply, (f :: args), _, σ => do
       let (fv, σ1) ← evalE cfg n f σ
       let (vs, σ2) ← evalArgs cfg n args σ1
       applyPy cfg n fv vs σ2
-  | n, .call (.name "vy_map") [a, b] _, σ => do
+  | n, .vy_map, [a, b], _, σ => do
       let (av, σ1) ← evalE cfg n a σ
       let (bv, σ2) ← evalE cfg n b σ1
       if isFnVal av || isFnVal bv then do
@@ -321,7 +357,7 @@ def evalE (cfg : Cfg) : Nat → PyExpr → PSt → R (Val × PSt)
         let (ys, σ3) ← lazyErr (mapPy cfg n f xs σ2)
         .ok (.list ys, σ3)
       else .error (.unmodelled "function value given to vy_map")
-  | n, .call (.name "vy_filter") (a :: b :: _) _, σ => do
+  | n, .vy_filter, (a :: b :: _), _, σ => do
       let (av, σ1) ← evalE cfg n a σ
       let (bv, σ2) ← evalE cfg n b σ1
       if isFnVal av || isFnVal bv then do
@@ -330,7 +366,7 @@ def evalE (cfg : Cfg) : Nat → PyExpr → PSt → R (Val × PSt)
         let (ys, σ3) ← lazyErr (filterPy cfg n f xs σ2)
         .ok (.list ys, σ3)
       else .error (.unmodelled "function value given to vy_filter")
-  | n, .call (.name "sort_by") [a, b] _, σ => do
+  | n, .sort_by, [a, b], _, σ => do
       let (av, σ1) ← evalE cfg n a σ
       let (bv, σ2) ← evalE cfg n b σ1
       if isFnVal av || isFnVal bv then do
@@ -341,7 +377,7 @@ def evalE (cfg : Cfg) : Nat → PyExpr → PSt → R (Val × PSt)
       else do
         let r ← elemFn "sort_by" [av, bv]
         .ok (r, σ2)
-  | n, .call (.name "vy_reduce") (a :: b :: _) _, σ => do
+  | n, .vy_reduce, (a :: b :: _), _, σ => do
       let (av, σ1) ← evalE cfg n a σ
       let (bv, σ2) ← evalE cfg n b σ1
       if isFnVal av || isFnVal bv then do
@@ -351,7 +387,7 @@ def evalE (cfg : Cfg) : Nat → PyExpr → PSt → R (Val × PSt)
         | [] => .ok (.int 0, σ2)
         | x :: r => foldPy cfg n f x r σ2
       else .error (.unmodelled "function value given to vy_reduce")
-  | n, .call (.name "scanl") (f :: e :: _) _, σ => do
+  | n, .scanl, (f :: e :: _), _, σ => do
       let (fv, σ1) ← evalE cfg n f σ
       let (v, σ2) ← evalE cfg n e σ1
       let xs ← iterDigits v
@@ -360,7 +396,7 @@ def evalE (cfg : Cfg) : Nat → PyExpr → PSt → R (Val × PSt)
       | x :: r => do
           let (ys, σ3) ← lazyErr (scanPy cfg n fv x r σ2)
           .ok (.list ys, σ3)
-  | n, .call (.name "vectorise") (f :: args) _, σ => do
+  | n, .vectorise, (f :: args), _, σ => do
       let (fv, σ1) ← evalE cfg n f σ
       let (vs, σ2) ← evalArgs cfg n args σ1
       match vs with
@@ -377,11 +413,13 @@ def evalE (cfg : Cfg) : Nat → PyExpr → PSt → R (Val × PSt)
           .ok (.list zs, σ3)
       | [] => .error (.raised "TypeError")
       | _ => .error (.unmodelled "vectorise with three arguments")
-  | n, .call f args kw, σ =>
-      -- a function value held in a variable, or an element function by name
-      (match nameKey f with
-       | Option.none => .error (.stuck "call of a non-name")
-       | some key =>
+  | _, _, _, _, _ => .error (.stuck "helper called with arguments the templates never pass")
+termination_by n _ args kw _ => (n, 10, sizeOf args + sizeOf kw + 1)
+
+/-- a call through a Python variable: a function value (lambda, named function, `list_item`) — or, when no such
+    variable exists, the element function of that name -/
+def callVar (cfg : Cfg) : Nat → PKey → Option String → List PyExpr → List (String × PyExpr) → PSt → R (Val × PSt)
+  | n, key, fname, args, kw, σ =>
          match σ.getVar key with
          | some (.fn id) => do
              -- f(arg_stack_expr, self_expr?, arity=?, ctx=ctx): the first argument is by reference when it is a name
@@ -396,15 +434,14 @@ def evalE (cfg : Cfg) : Nat → PyExpr → PSt → R (Val × PSt)
              .ok (r, σ5)
          | some _ => .error (.raised "TypeError")
          | Option.none =>
-           (match f with
-            | .name fname => do
+           (match fname with
+            | some fname => do
                 let (vs, σ1) ← evalArgs cfg n args σ
                 if vs.any isFnVal then .error (.unmodelled ("function value given to " ++ fname)) else
                 let r ← elemFn fname vs
                 .ok (r, σ1)
-            | _ => .error (.raised "NameError")))
-  | _, _, _ => .error (.stuck "expression")
-termination_by n e _ => (n, 10, sizeOf e)
+            | Option.none => if σ.depth = 0 then .error (.raised "NameError") else .error (.unmodelled "possibly a closure variable"))
+termination_by n _ _ args kw _ => (n, 10, sizeOf args + sizeOf kw + 1)
 
 /-- `a and b` / `a or b` with Python's value semantics -/
 def evalBool (cfg : Cfg) : Nat → Bool → List PyExpr → PSt → R (Val × PSt)
